@@ -585,7 +585,17 @@ func replay(r *mon.Run, path string) {
 	cf := filepath.Join(mon.WorkDir(), "replay-case.json")
 	ioutil.WriteFile(cf, cb, 0644)
 	res := r.RunChild(mon.ChildSpec{Label: "replay", Args: []string{"case", cf}, Timeout: 10 * time.Minute})
-	r.Absorb(res, "C08:replay")
+	if res.Exit != 0 && !res.TimedOut { // same signature as the supervisor gives a death
+		if _, err := os.Stat(res.Partial); err == nil {
+			r.Merge(res.Partial)
+		}
+		logHT := mon.HeadTail(res.LogFile, 3500)
+		site := mon.FatalSite(logHT)
+		r.Violation("C08:fatal:type="+c.Type+":"+site, fmt.Sprintf("child process died with exit %d (%s) while executing mode=%s type=%s input=%x", res.Exit, site, c.Mode, c.Type, clip(c.Input)),
+			map[string]interface{}{"case": c, "log": logHT})
+	} else {
+		r.Absorb(res, "C08:replay")
+	}
 	mon.CleanWork()
 	n := r.Get("bytes_cases") + r.Get("value_roundtrips") + r.Get("alloc_checks") + r.Get("reader_checks") + r.Get("split_checks")
 	r.Finish(mon.Coverage{Evaluations: n + 1, DistinctNontrivial: 2, Rule: "replay of one recorded case"})
